@@ -111,8 +111,7 @@ proof fn lemma_neg_inv_unique(k1: int, k2: int, m0: int)
 {
     // k1 == k1 * (-(k2*m0)) == k2 * (-(k1*m0)) == k2  (mod B)
     let b = B();
-    let x = k1 * (k2 * m0); let y = k2 * (k1 * m0);
-    assert(x == y) by (nonlinear_arith);
+    assert(k1 * (k2 * m0) == k2 * (k1 * m0)) by (nonlinear_arith);
     lemma_mul_mod_noop_right(k1, k2 * m0, b);
     lemma_mul_mod_noop_right(k2, k1 * m0, b);
     assert((k1 * (b - 1)) % b == (k2 * (b - 1)) % b);
@@ -304,28 +303,81 @@ pub const fn as_nz_ref(&self) -> (ret__: &NonZero<T>)
 //@@ fn src/modular/monty_form.rs | impl<const LIMBS: usize> MontyParams<LIMBS> | new_vartime | body | props C08 C11
 impl<const LIMBS: usize> MontyParams<LIMBS> {
 pub const fn new_vartime(modulus: Odd<Uint<LIMBS>>) -> (ret__: Self)
+//@+
+    requires LIMBS < 0x400_0000, modulus.0.v() % 2 == 1
+    ensures ret__.modulus == modulus, ret__.wf_rest(),
+        modulus.0.v() != 1 ==> ret__.wf(),
+        // the code yields one == 1 (not R mod m == 0) for the modulus 1: see finding in the unit header
+        modulus.0.v() == 1 ==> ret__.one.v() == 1
+//@-
 {
+//@+
+    let ghost n = LIMBS as nat;
+    let ghost m = modulus.0.v();
+    let ghost r = bp(LIMBS as nat);
+    proof {
+        if LIMBS == 0 { assert(val(modulus.0.limbs@, 0) == 0); }
+        lemma_val_bound(modulus.0.limbs@, n);
+    }
+//@-
         // `R mod modulus` where `R = 2^BITS`.
         // Represents 1 in Montgomery form.
         let one = Uint::MAX()
             .rem_vartime(modulus.as_nz_ref())
             .wrapping_add(&Uint::ONE());
+//@+
+    proof {
+        lemma_mod_bound(r - 1, m);
+        lemma_small_mod(((r - 1) % m + 1) as nat, r as nat);
+        lemma_one_cong(one.v(), m, n);
+    }
+//@-
         // `R^2 mod modulus`, used to convert integers to Montgomery form.
         let r2 = Uint::rem_wide_vartime(one.square_wide(), modulus.as_nz_ref());
+//@+
+    proof {
+        lemma_r2_def(one.v(), m, r);
+        lemma_mod_bound(r * r, m);
+    }
+//@-
         // The modular inverse should always exist, because it was ensured odd above, which also ensures it's non-zero
         let inv_mod = modulus
             .as_ref()
             .inv_mod2k_full_vartime(Word::BITS)
             .expect("modular inverse should exist");
+//@+
+    proof {
+        lemma_pow2_64();
+        lemma_small_mod(1, B() as nat);
+    }
+//@-
         let mod_neg_inv = Limb(Word::MIN.wrapping_sub(inv_mod.limbs[0].0));
+//@+
+    proof {
+        lemma_val_low(modulus.0.limbs@, n); lemma_val_low(inv_mod.limbs@, n);
+        lemma_neg_inv_def(mod_neg_inv.0 as int, inv_mod.limbs@[0].0 as int, inv_mod.v(), modulus.0.limbs@[0].0 as int, m);
+    }
+//@-
         let mod_leading_zeros = modulus.as_ref().leading_zeros_vartime();
+//@+
+    let ghost z = mod_leading_zeros as int;
+//@-
         let mod_leading_zeros = if mod_leading_zeros < Word::BITS - 1 {
             mod_leading_zeros
         } else {
             Word::BITS - 1
         };
+//@+
+    proof {
+        if z >= 63 { lemma_p2_mono((64 * LIMBS - z) as nat, (64 * LIMBS - 63) as nat); }
+        assert(r2.v() * r2.v() < m * r) by (nonlinear_arith) requires 0 <= r2.v() < m, m < r;
+    }
+//@-
         // `R^3 mod modulus`, used for inversion in Montgomery form.
         let r3 = montgomery_reduction(&r2.square_wide(), &modulus, mod_neg_inv);
+//@+
+    proof { lemma_r3_def(r3.v(), r2.v(), m, n); }
+//@-
         Self {
             modulus,
             one,
